@@ -27,6 +27,9 @@ fn main() {
 	if let Some(s) = args.kv.get("steps") {
 		prof.steps = s.parse().unwrap();
 	}
+	if args.kv.get("late_update").map(|s| s == "1").unwrap_or(false) {
+		prof.late_update = true;
+	}
 	if let Some(s) = args.kv.get("deadline_kind") {
 		prof.deadline_kind = Some(s.parse().unwrap());
 	}
